@@ -4,6 +4,9 @@
 //   kind 1: quantiles_sketch<double> fed integer values (plus NaN updates / NaN split points)
 //   kind 2: quantiles_sketch<std::string, std::greater<std::string>>: item v is stored as enc(-v) with enc an
 //           order-preserving fixed-width encoding, so that greater<string> on the stored items is < on v.
+//   kind 3: quantiles_sketch<int64_t, DirCmp> with a STATEFUL comparator: DirCmp{desc = true} is passed at construction
+//           (a default-constructed DirCmp compares ascending), item v is stored as -v, so that the instance orders the
+//           stored items like < orders v, and any use of C() instead of the stored comparator shows.
 // Only the public API is used (no private members are read).  Random choices (random_bit in zip_buffer, the
 // stride offset in zip_buffer_with_stride) come from the DATASKETCHES_VERIF hook and are logged in the E line.
 #include "common.hpp"
@@ -39,9 +42,21 @@ struct K2 {
   }
 };
 
+struct DirCmp {
+  bool desc;
+  DirCmp(): desc(false) {}
+  explicit DirCmp(bool d): desc(d) {}
+  bool operator()(int64_t a, int64_t b) const { return desc ? b < a : a < b; }
+};
+struct K3 {
+  typedef quantiles_sketch<int64_t, DirCmp> sk_t; typedef int64_t item_t;
+  static item_t enc(I v) { return (int64_t)(-v); }
+  static I dec(const item_t& x) { return -(I)x; }
+};
+
 struct Reg {
   int kind;
-  std::unique_ptr<K0::sk_t> s0; std::unique_ptr<K1::sk_t> s1; std::unique_ptr<K2::sk_t> s2;
+  std::unique_ptr<K0::sk_t> s0; std::unique_ptr<K1::sk_t> s1; std::unique_ptr<K2::sk_t> s2; std::unique_ptr<K3::sk_t> s3;
 };
 static std::map<long, Reg> regs;
 
@@ -54,6 +69,16 @@ template<typename K> struct Sel;
 template<> struct Sel<K0> { static std::unique_ptr<K0::sk_t>& p(Reg& r) { return r.s0; } };
 template<> struct Sel<K1> { static std::unique_ptr<K1::sk_t>& p(Reg& r) { return r.s1; } };
 template<> struct Sel<K2> { static std::unique_ptr<K2::sk_t>& p(Reg& r) { return r.s2; } };
+template<> struct Sel<K3> { static std::unique_ptr<K3::sk_t>& p(Reg& r) { return r.s3; } };
+// deserialize takes the comparator as an argument
+template<typename K> struct Des {
+  static typename K::sk_t bytes(const void* b, size_t n) { return K::sk_t::deserialize(b, n); }
+  static typename K::sk_t stream(std::istream& is) { return K::sk_t::deserialize(is); }
+};
+template<> struct Des<K3> {
+  static K3::sk_t bytes(const void* b, size_t n) { return K3::sk_t::deserialize(b, n, serde<int64_t>(), DirCmp(true)); }
+  static K3::sk_t stream(std::istream& is) { return K3::sk_t::deserialize(is, serde<int64_t>(), DirCmp(true)); }
+};
 
 static I numer(double rank, uint64_t n) { return (I)std::llround(rank * (double)n); }
 
@@ -134,7 +159,7 @@ template<typename K> static void ser_op(Reg& reg, Out& o) {
   o.F(hok ? 1 : 0);
   std::string two = st + std::string("\x5a\x5a\x5a", 3);                               // the stream reader stops after the image
   std::istringstream is(two, std::ios::binary);
-  S r = S::deserialize(is);
+  S r = Des<K>::stream(is);
   o.F(((long)is.tellg() == (long)st.size() && r.get_n() == s.get_n()) ? 1 : 0);
 }
 
@@ -145,12 +170,12 @@ template<typename K> static I deser_both(Reg& g, const std::vector<uint8_t>& v, 
   std::unique_ptr<S> a, b; long consumed = -1;
   uint8_t* buf = (uint8_t*)malloc(v.size() ? v.size() : 1);
   if (v.size()) memcpy(buf, v.data(), v.size());
-  try { a.reset(new S(S::deserialize(buf, v.size()))); } catch (const std::exception&) {}
+  try { a.reset(new S(Des<K>::bytes(buf, v.size()))); } catch (const std::exception&) {}
   free(buf);
   {
     std::string st((const char*)v.data(), v.size());
     std::istringstream is(st, std::ios::binary);
-    try { b.reset(new S(S::deserialize(is))); consumed = (long)is.tellg(); } catch (const std::exception&) {}
+    try { b.reset(new S(Des<K>::stream(is))); consumed = (long)is.tellg(); } catch (const std::exception&) {}
   }
   if (a && b) {
     bool same = a->get_n() == b->get_n();
@@ -181,6 +206,7 @@ static void handler(const Line& t, Out& o) {
     if (kind == 0) g.s0.reset(new K0::sk_t((uint16_t)k));
     else if (kind == 1) g.s1.reset(new K1::sk_t((uint16_t)k));
     else if (kind == 2) g.s2.reset(new K2::sk_t((uint16_t)k));
+    else if (kind == 3) g.s3.reset(new K3::sk_t((uint16_t)k, DirCmp(true)));
     else throw std::invalid_argument("kind");
     regs[(long)t.at(1)] = std::move(g);
     o.R(1); break; }
@@ -192,13 +218,14 @@ static void handler(const Line& t, Out& o) {
     if (t.at(1) == t.at(2)) throw std::invalid_argument("self merge not exercised");
     Reg& a = get(t.at(1)); Reg& b = get(t.at(2)); bool rv = t.at(3) == 1;
     if (a.kind != b.kind) throw std::invalid_argument("kinds differ");
-    if (a.kind == 0) merge_op<K0>(a, b, rv); else if (a.kind == 1) merge_op<K1>(a, b, rv); else merge_op<K2>(a, b, rv);
+    if (a.kind == 0) merge_op<K0>(a, b, rv); else if (a.kind == 1) merge_op<K1>(a, b, rv); else if (a.kind == 2) merge_op<K2>(a, b, rv); else merge_op<K3>(a, b, rv);
     if (rv) regs.erase((long)t.at(2));
     o.R(1); break; }
   case 9: { // CDF with a NaN split point at position t[2] (double sketches)
     Reg& g = get(t.at(1));
     if (g.kind != 1) { // other kinds: nothing to ask; behave as the model (sorted view set up, then refused)
       if (g.kind == 0) { if (!g.s0->is_empty()) g.s0->get_rank(0, true); }
+      else if (g.kind == 3) { if (!g.s3->is_empty()) g.s3->get_rank(0, true); }
       else { if (!g.s2->is_empty()) g.s2->get_rank(K2::enc(0), true); }
       throw std::invalid_argument("no NaN for this kind");
     }
@@ -211,6 +238,7 @@ static void handler(const Line& t, Out& o) {
     Reg& b = get(t.at(2)); Reg g; g.kind = b.kind;
     if (b.kind == 0) g.s0.reset(new K0::sk_t(*b.s0));
     else if (b.kind == 1) g.s1.reset(new K1::sk_t(*b.s1));
+    else if (b.kind == 3) g.s3.reset(new K3::sk_t(*b.s3));
     else g.s2.reset(new K2::sk_t(*b.s2));
     regs[(long)t.at(1)] = std::move(g);
     o.R(1); break; }
@@ -219,34 +247,35 @@ static void handler(const Line& t, Out& o) {
     Reg& a = get(t.at(1)); Reg& b = get(t.at(2));
     if (a.kind != b.kind) throw std::invalid_argument("kinds differ");
     if (op == 15) {
-      if (a.kind == 0) *a.s0 = *b.s0; else if (a.kind == 1) *a.s1 = *b.s1; else *a.s2 = *b.s2;
+      if (a.kind == 0) *a.s0 = *b.s0; else if (a.kind == 1) *a.s1 = *b.s1; else if (a.kind == 3) *a.s3 = *b.s3; else *a.s2 = *b.s2;
     } else {
-      if (a.kind == 0) *a.s0 = std::move(*b.s0); else if (a.kind == 1) *a.s1 = std::move(*b.s1); else *a.s2 = std::move(*b.s2);
+      if (a.kind == 0) *a.s0 = std::move(*b.s0); else if (a.kind == 1) *a.s1 = std::move(*b.s1); else if (a.kind == 3) *a.s3 = std::move(*b.s3); else *a.s2 = std::move(*b.s2);
       regs.erase((long)t.at(2));
     }
     o.R(1); break; }
   case 20: { // serialize r: R = image bytes
     Reg& g = get(t.at(1));
-    if (g.kind == 0) ser_op<K0>(g, o); else if (g.kind == 1) ser_op<K1>(g, o); else throw std::invalid_argument("codec: kind");
+    if (g.kind == 0) ser_op<K0>(g, o); else if (g.kind == 1) ser_op<K1>(g, o); else if (g.kind == 3) ser_op<K3>(g, o); else throw std::invalid_argument("codec: kind");
     break; }
   case 21: { // r := deserialize(serialize(r2)), both readers
     Reg& b = get(t.at(2)); Reg g; g.kind = b.kind; I res;
     if (b.kind == 0) { auto v = b.s0->serialize(); res = deser_both<K0>(g, std::vector<uint8_t>(v.begin(), v.end()), o); }
     else if (b.kind == 1) { auto v = b.s1->serialize(); res = deser_both<K1>(g, std::vector<uint8_t>(v.begin(), v.end()), o); }
+    else if (b.kind == 3) { auto v = b.s3->serialize(); res = deser_both<K3>(g, std::vector<uint8_t>(v.begin(), v.end()), o); }
     else throw std::invalid_argument("codec: kind");
     if (res == 1) regs[(long)t.at(1)] = std::move(g);
     o.R(res); break; }
   case 22: { // r := deserialize(bytes) as kind, both readers
     int kind = (int)t.at(2); Reg g; g.kind = kind; I res;
     std::vector<uint8_t> v; for (size_t i = 3; i < t.size(); ++i) v.push_back((uint8_t)t[i]);
-    if (kind == 0) res = deser_both<K0>(g, v, o); else if (kind == 1) res = deser_both<K1>(g, v, o);
+    if (kind == 0) res = deser_both<K0>(g, v, o); else if (kind == 1) res = deser_both<K1>(g, v, o); else if (kind == 3) res = deser_both<K3>(g, v, o);
     else throw std::invalid_argument("codec: kind");
     if (res == 1) regs[(long)t.at(1)] = std::move(g);
     o.R(res); break; }
   case 97: o.R(1); o.F((I)vh::source().scripted.size()); break;
   default: {
     Reg& g = get(t.at(1));
-    if (g.kind == 0) run_op<K0>(op, g, t, o); else if (g.kind == 1) run_op<K1>(op, g, t, o); else run_op<K2>(op, g, t, o);
+    if (g.kind == 0) run_op<K0>(op, g, t, o); else if (g.kind == 1) run_op<K1>(op, g, t, o); else if (g.kind == 3) run_op<K3>(op, g, t, o); else run_op<K2>(op, g, t, o);
   }
   }
 }
